@@ -244,6 +244,8 @@ nni_msgq_aio_get(nni_msgq *mq, nni_aio *aio)
 
 	nni_aio_list_append(&mq->mq_aio_getq, aio);
 	nni_msgq_run_getq(mq);
+	// Taking a message out of the queue made room for a waiting writer.
+	nni_msgq_run_putq(mq);
 	nni_msgq_run_notify(mq);
 
 	nni_mtx_unlock(&mq->mq_lock);
